@@ -81,6 +81,7 @@ PROGRAMS = {
     "half": [(0, "N"), (D / 2, "N"), (0, "C")],      # second element strictly inside the due time
     "tieE": [(0, "N"), (D, "E")],
     "late": [(0, "N"), (D, "N"), (D, "N"), (0, "C")],
+    "tie2": [(0, "N"), (D, "N"), (D / 2, "C")],      # like tie, but the source lives on for a while after the racing element
 }
 
 
@@ -250,7 +251,7 @@ def plan(tier):
         "sample": [("timeout", "tie")],
         "timeout": [("timeout", "tie"), ("eventloop", "tieC")],
         "timeout_other": [("timeout", "tie")],
-        "timeout_with_mapper": [("timeout", "tie")],
+        "timeout_with_mapper": [("timeout", "tie2")],
         "take_with_time": [("timeout", "tie")],
         "skip_with_time": [("timeout", "tie")],
         "delay": [("timeout", "tie")],
